@@ -125,7 +125,12 @@ func AsCallable(v reflect.Value) (Callable, bool) {
 	v = Resolve(v)
 
 	if v.IsValid() && v.Type().Implements(TypeCallable) && v.CanInterface() {
-		return v.Interface().(Callable), true
+		// A nil interface value of static type Callable passes the
+		// Implements test but holds nothing to call.
+		if c, ok := v.Interface().(Callable); ok {
+			return c, true
+		}
+		return nil, false
 	}
 
 	if v.IsValid() && reflect.PtrTo(v.Type()).Implements(TypeCallable) && v.CanAddr() && v.Addr().CanInterface() {
